@@ -62,6 +62,7 @@ class Sched(object):
         self.counters = collections.Counter()
         self.preempts = 0
         self.quiet = 0
+        self.waiting = {}
 
     # ---- naming --------------------------------------------------------------------------
     def name(self, obj, role):
@@ -237,7 +238,9 @@ class DLock(object):
             if not blocking:
                 S.emit("tryacq", self._role(), 0)
                 return False
+            S.waiting[cur.name] = (self._role(), self.owner.name if self.owner is not None else None)
             block(lambda: self.owner is None)
+            S.waiting.pop(cur.name, None)
         self.owner = cur
         self.count = 1
         S.emit("acq", self._role())
@@ -572,6 +575,7 @@ class atomic(object):
 
 # ---- installation ----------------------------------------------------------------------------
 _INSTALLED = False
+_GLOBALS = []
 
 
 def install(pool=False):
@@ -609,6 +613,10 @@ def install(pool=False):
     fzip.Lock = DLock
     ftimeout.LOCK = DLock()
     ftimeout.EXECUTOR_REF = None
+    # the process-wide sync executor behind wrap()/f_map/... was created at import time with a real Lock
+    from more_executors._impl.futures import base as fbase
+    fbase.EXECUTOR._shutdown._lock = DLock()
+    _GLOBALS.append(fbase.EXECUTOR._shutdown._lock)
     if pool:
         install_pool()
 
@@ -644,6 +652,10 @@ def run(chooser, main_fn, real_timeout=30.0):
     s = Sched(chooser)
     s.abort_step = _t.Event()
     S = s
+    for g in _GLOBALS:
+        g.owner = None
+        g.count = 0
+        s.name(g, "Gsync")
     lt = LT(s, "main")
     s.threads[lt.tid] = lt
     res = Result()
@@ -682,6 +694,7 @@ def run(chooser, main_fn, real_timeout=30.0):
     res.log = s.log
     res.sched = s.sched
     res.deadlock = s.deadlock
+    res.waiting = dict(s.waiting)
     res.now = s.now
     res.npoints = s.npoints
     res.preempts = s.preempts
